@@ -47,8 +47,13 @@ def route_table_check(hc):
     for mode, idw, seqw, crc in itertools.product((0, 1), (1, 2, 4, 8), (1, 2, 4), (0, 1)):
         for ints in descriptors(mode, idw, crc, 1, 2, 3, seqw):
             pdu = codec.reparse(codec.build_pdu(ints, pm))
-            got = get_packet_destination(pdu)
             exp = expected_route(ints)
+            try:
+                got = get_packet_destination(pdu)
+            except Exception as e:  # noqa: BLE001
+                hc.v.violation(f"oracle: get_packet_destination raises {type(e).__name__} for PDU kind {ints[0]}; the property's table "
+                               f"routes it to the {'destination' if exp else 'source'} handler", {"pdu": ints})
+                return n
             n += 1
             if (got == PacketDestination.DEST_HANDLER) != (exp == 1):
                 hc.v.violation(f"oracle: get_packet_destination routes PDU kind {ints[0]} (acked {ints[10] if ints[0] == 4 else '-'}) to "
